@@ -1633,6 +1633,7 @@ MODULE_FUNCS = {
     "numpy.append": lambda ex, st, a, k, n: __import__("pyvc.nplib", fromlist=["x"]).np_append(ex, st, a, k, n),
     "numpy.delete": lambda ex, st, a, k, n: __import__("pyvc.nplib", fromlist=["x"]).np_delete(ex, st, a, k, n),
     "datetime.timedelta": lambda ex, st, a, k, n: __import__("pyvc.timelib", fromlist=["x"]).m_timedelta(ex, st, a, k, n),
+    "numpy.datetime64": lambda ex, st, a, k, n: __import__("pyvc.timelib", fromlist=["x"]).m_np_datetime64(ex, st, a, k, n),
     "decimal.Decimal": lambda ex, st, a, k, n: __import__("pyvc.timelib", fromlist=["x"]).m_decimal(ex, st, a, k, n),
     "numpy.deg2rad": lambda ex, st, a, k, n: __import__("pyvc.cplx", fromlist=["x"]).np_deg2rad(ex, st, a, k, n),
     "numpy.cos": lambda ex, st, a, k, n: __import__("pyvc.cplx", fromlist=["x"]).np_cos(ex, st, a, k, n),
